@@ -22,7 +22,7 @@ func (u *Unit) checkFrame(ct *Contract, r retInfo, alloc0 Term) {
 		for _, h := range u.resolveFrameItem(ct, f) {
 			allowed[h] = true
 		}
-		if strings.HasPrefix(f, "*") {
+		if strings.HasPrefix(f, "*") || strings.HasPrefix(f, "@") {
 			return // frames naming pointees of parameters are not checked yet (reported as assumed)
 		}
 	}
